@@ -207,10 +207,18 @@ NAMES = ["message", "iq", "presence", "body", "x", "query", "item", "a", "b", "s
 UTF8 = ["é", "€", "\U0001f600", "Ж", "中"]
 
 
+LATIN1 = ["\xe9", "\xfc\xdf", "\xa0", "\xff", "\x80", "\x85", "\xd7\xf7", "\xc3\xa9"]     # incl. C1 controls and a byte pair that is valid UTF-8
+
+
 class DocGen:
-    def __init__(self, rng, small=False):
+    def __init__(self, rng, small=False, hi=None, prolog=None, codec="utf-8"):
+        """hi: the non-ASCII characters used in text and attribute values; prolog: XML declaration put in front of every
+        stream (None: the generator's own choice); codec: how the document is turned into bytes"""
         self.rng = rng
         self.small = small
+        self.hi = hi if hi is not None else UTF8
+        self.prolog = prolog
+        self.codec = codec
 
     def name(self):
         return self.rng.choice(["m", "i", "b", "x", "q"]) if self.small else self.rng.choice(NAMES)
@@ -230,7 +238,7 @@ class DocGen:
             elif k == 3:
                 parts.append("<![CDATA[%s]]>" % r.choice(["<x>", "a&b", "]]", "", "]", " ", "<![CDATA["]))
             elif k == 4:
-                parts.append(r.choice(UTF8))
+                parts.append(r.choice(self.hi))
             elif k == 5:
                 parts.append(r.choice(["\n", "\r\n", "\t", " ", "]]", "]", ">"]))
             elif k == 6 and not self.small:
@@ -259,7 +267,7 @@ class DocGen:
         if k == 0:
             return r.choice(["&lt;&amp;", "&#x41;b", "a&quot;b", "&#65;", "x&#10;y", "a\tb", "a\nb"])
         if k == 1:
-            return r.choice(UTF8)
+            return r.choice(self.hi)
         if k == 2:
             return ""
         return "".join(r.choice("abcxyz@/.019") for _ in range(r.randint(1, 3 if self.small else 10)))
@@ -345,7 +353,11 @@ class DocGen:
             body.append(st)
         if closed is None:
             closed = r.random() < 0.7
-        return (hdr + "".join(body) + (close if closed else "")).encode("utf-8")
+        if self.prolog is not None:
+            if hdr.startswith("<?xml"):
+                hdr = hdr[hdr.index("?>") + 2:].lstrip("\n")
+            hdr = self.prolog + hdr
+        return (hdr + "".join(body) + (close if closed else "")).encode(self.codec)
 
 
 def mutate(rng, doc):
@@ -557,6 +569,79 @@ def gen_jobs(chk):
             cs = sorted(set(rng.sample(range(lo, b), rng.choice([2, 3])) + [b]))
             parts.append(cutstr(cs))
         jobs.append(Job(doc, "restart-on-stanza-" + trig, parts, resets="@" + trig.encode().hex(), base=str(b)))
+
+    # (5) documents that declare their encoding (ISO-8859-1 with bytes 0x80..0xFF in text and attribute values; US-ASCII):
+    #     a new parser and a restarted one must read them alike, and like libxml2.  Fed fresh, after a restart of a
+    #     new parser, as first AND as second stream (same bytes) with the restart at every position of the first one,
+    #     and mixed with streams in UTF-8 on either side of a restart.
+    jobs += encoding_jobs(chk)
+    return jobs
+
+
+def encoding_jobs(chk):
+    rng = chk.rng
+    thorough = chk.tier == "thorough"
+    jobs = []
+    prologs = ["<?xml version='1.0' encoding='ISO-8859-1'?>", '<?xml version="1.0" encoding="iso-8859-1"?>\n',
+               "<?xml version='1.0' encoding='ISO-8859-1' standalone='yes'?>"]
+    hand = [b"<?xml version='1.0' encoding='ISO-8859-1'?><stream xmlns='urn:d'><message to='ren\xe9@x'><body>caf\xe9 \xfc\xdf</body></message></stream>",
+            b"<?xml version='1.0' encoding='ISO-8859-1'?><s><m a='\xa0\xff'>\xe9<![CDATA[\xfe<]]>&#xe9;&lt;\x80</m> <\xe9l\xe8ve \xfc='1'/></s>",
+            b"<?xml version='1.0' encoding='US-ASCII'?><s><m a='b&#xe9;'>abc&#x20AC;</m></s>"]
+    docs = [(d, "latin1" if b"8859" in d else "ascii") for d in hand]
+    n = 24 if thorough else 6
+    for i in range(n):
+        g = DocGen(rng, small=(i % 2 == 0), hi=LATIN1, prolog=prologs[i % len(prologs)], codec="latin-1")
+        try:
+            d = g.stream(closed=(i % 3 != 2), nstanzas=rng.choice([1, 2, 3]))
+        except UnicodeEncodeError:
+            continue
+        if not any(c >= 0x80 for c in d):          # make sure a byte >= 0x80 is there: an attribute of the root element
+            at = d.index(b">", d.index(b"?>") + 2)
+            d = d[:at] + b" l='\xe9'" + d[at:]
+        docs.append((d, "latin1"))
+    for i in range(6 if thorough else 2):
+        g = DocGen(rng, small=(i % 2 == 0), hi=["&#xe9;", "~"], prolog="<?xml version='1.0' encoding='US-ASCII'?>", codec="ascii")
+        try:
+            docs.append((g.stream(closed=True), "ascii"))
+        except UnicodeEncodeError:
+            continue
+    utf = DocGen(rng, small=True)
+    u_open = utf.stream(closed=False, nstanzas=1)
+    u_closed = b"<s><m a='\xc3\xa9'>\xe2\x82\xac</m></s>"
+    for k, (d, enc) in enumerate(docs):
+        kind = "declared-" + enc
+        nrand = 16 if thorough else 6
+        jobs.append(Job(d, kind + "-fresh", ["*"] + [random_partition(rng, len(d)) for _ in range(nrand)]))
+        if len(d) <= 500:
+            jobs.append(Job(d, kind + "-fresh-all-1cuts", "#1"))
+        if len(d) <= 120 and (thorough or k < 3):
+            jobs.append(Job(d, kind + "-fresh-all-2cuts", "#2"))
+        # the same bytes on a parser that has been restarted before the first byte
+        jobs.append(Job(d, kind + "-after-restart-of-new-parser", ["*", random_partition(rng, len(d))], resets="0"))
+        # same bytes as first and as second stream, the restart at every position of the first
+        step = 1 if (thorough or k < 4) else 5
+        for r in range(1, len(d) + 1, step):
+            doc = d[:r] + d
+            jobs.append(Job(doc, kind + "-twice-restart-at-every-position",
+                            [random_partition(rng, len(doc))] if r % 6 == 0 else [], resets=str(r)))
+        # a stream in UTF-8 before / after it, and twice with a complete first stream
+        jobs.append(Job(u_open + d, kind + "-after-utf8-stream", [random_partition(rng, len(u_open + d))], resets=str(len(u_open))))
+        jobs.append(Job(d + u_closed, kind + "-before-utf8-stream", [random_partition(rng, len(d + u_closed))], resets=str(len(d))))
+        jobs.append(Job(u_closed + d + u_closed + d, kind + "-alternating",
+                        [random_partition(rng, 2 * len(u_closed + d))],
+                        resets="%d,%d,%d" % (len(u_closed), len(u_closed + d), len(u_closed + d + u_closed))))
+    # a declared encoding whose bytes do not fit it: rejected by a new and by a restarted parser alike
+    bad = b"<?xml version='1.0' encoding='US-ASCII'?><s><m a='b'>ab\xe9c</m></s>"
+    jobs.append(Job(bad, "declared-ascii-high-byte", "#1"))
+    jobs.append(Job(bad, "declared-ascii-high-byte", ["*"], resets="0"))
+    jobs.append(Job(bad[:30] + bad, "declared-ascii-high-byte", ["*"], resets="30"))
+    # restart requested by a stanza, both streams in ISO-8859-1
+    hdr = b"<?xml version='1.0' encoding='ISO-8859-1'?><stream:stream xmlns:stream='http://etherx.jabber.org/streams' xmlns='jabber:client' id='\xe9' version='1.0'>"
+    d1 = hdr + b"<proceed xmlns='urn:ietf:params:xml:ns:xmpp-tls'/>"
+    d2 = hdr + b"<message><body>caf\xe9</body></message>"
+    b = len(d1)
+    jobs.append(Job(d1 + d2, "declared-latin1-restart-on-stanza", ["%d,%d" % (c, b) for c in range(len(hdr) + 1, b, 3)],
+                    resets="@" + b"proceed".hex(), base=str(b)))
     return jobs
 
 
@@ -796,7 +881,9 @@ def run(chk):
                 "character references, CDATA, multi-byte UTF-8, prefixes, default-namespace changes, namespaced attributes "
                 "incl. collisions with unqualified ones, whitespace between stanzas, text > 1 KiB / > 4 KiB) and one-edit "
                 "malformed variants (deleted/flipped bytes, NUL, invalid UTF-8, truncation, mismatched tags, bad entities, "
-                "junk after the root, illegal constructs, DOCTYPE/prolog); partitions: every 2-cut of documents <= 160 bytes, "
+                "junk after the root, illegal constructs, DOCTYPE/prolog), documents declaring encoding ISO-8859-1 (bytes 0x80..0xFF "
+                "in text, attribute values and names) or US-ASCII, fed to a new parser, to a parser restarted before the first "
+                "byte, as first and as second stream around a restart at every position, and next to UTF-8 streams; partitions: every 2-cut of documents <= 160 bytes, "
                 "every 3-cut of tiny ones (all <= 60 bytes in thorough), every 1-cut <= 700 bytes, byte-by-byte, random; "
                 "restarts at every position of a first stream followed by a fresh document, and restarts requested by a "
                 "stanza; an evaluation = one (document, partition, restarts) fed to the real parser; distinct non-trivial = "
